@@ -349,15 +349,18 @@ def c12_jobs(tier):
     js.append(job("ZZ_C12_ReportVsTotal", C))
     for frm, span in ([(1996, 10)] if tier == "quick" else [(0, 10), (1895, 10), (1996, 10), (9990, 10)]):
         js.append(job("ZZ_C15_Week", P, **{"from": frm, "span": span, "_split": 65536}))
+    # print --with-totals: prefix column vs plain print, record and entry values
+    for L, f, r in ([(1, 0, 0), (2, 0, 0), (2, 1, 1)] if tier == "quick" else [(1, 0, 0), (2, 0, 0), (2, 1, 1), (3, 1, 1)]):
+        js.append(job("ZZ_C12_PrintWithTotals", C, L=L, fmt=f, rot=r))
     return js + lemmas()
 
 
 def c13_jobs(tier):
     q = tier == "quick"
-    js = [job("ZZ_C13_Sort", S, n=n) for n in ([1, 2, 3] if q else [1, 2, 3, 4, 5])]
+    js = [job("ZZ_C13_Sort", S, n=n) for n in ([1, 2, 3] if q else [1, 2, 3, 4])]
     js += [job("ZZ_C13_Filter", S, n=n, e=1, mode=0) for n in ([1, 2] if q else [1, 2, 3])]
     js += [job("ZZ_C13_Filter", S, n=1, e=2, mode=1), job("ZZ_C13_Filter", S, n=2, e=1, mode=1)]
-    for sel in range(7):
+    for sel in range(13):
         for frm, span in ([(2019, 4)] if q else [(0, 10), (1896, 10), (1996, 10), (9989, 10)]):
             js.append(job("ZZ_C13_Shortcuts", U, **{"from": frm, "span": span, "sel": sel, "_split": 65536}))
     if not q:
@@ -379,10 +382,11 @@ def c14_jobs(tier):
 def c20_jobs(tier):
     q = tier == "quick"
     js = []
-    for L in ([1, 2] if q else [1, 2, 3]):
-        for f, r in (FMT_ROT_QUICK if L < 3 else [(1, 1)]):
+    for L in [1, 2]:
+        for f, r in (FMT_ROT_QUICK if q else FMT_ROT_ALL):
             js.append(job("ZZ_C20_Json", U, L=L, faults=1, pretty=(L + f) % 2, fmt=f, rot=r))
-    js.append(job("ZZ_C20_Json", U, L=3, faults=1, pretty=0, fmt=0, rot=2) if not q else job("ZZ_C10_ErrPos", U, L=2, fmt=1, rot=1, w=1))
+    if q:
+        js.append(job("ZZ_C10_ErrPos", U, L=2, fmt=1, rot=1, w=1))
     # values with symbolic digits (times incl. 0:00 / 24:00 and day shifts, signed durations, should-total)
     js += [job("ZZ_C20_Values", U, kind=0, pretty=0, small=1), job("ZZ_C20_Values", U, kind=1, pretty=1), job("ZZ_C20_Values", U, kind=2, pretty=0)]
     if not q:
@@ -518,17 +522,17 @@ CHECKS = {
     },
     "C12": {
         "jobs": c12_jobs,
-        "bounds": {"quick": "1-3 records on 8 dates around year / ISO-week-year / leap-day / month boundaries (every choice with repetition, any order; the second record in either date notation), totals symbolic in [-100000,100000], all 5 aggregations, --fill over the spanned range, klog today split; bucket hashes for all field values; week buckets on 1996-2005",
+        "bounds": {"quick": "1-3 records on 8 dates around year / ISO-week-year / leap-day / month boundaries (every choice with repetition, any order; the second record in either date notation), totals symbolic in [-100000,100000], all 5 aggregations, --fill over the spanned range, klog today split; print --with-totals on every conforming generated document of 1-2 lines (prefix column removed = plain print, record line carries the record total, one value per entry, entry values add up); bucket hashes for all field values; week buckets on 1996-2005",
                    "thorough": "4 records; week buckets on four decade windows"},
-        "outside": "the rendered table text (alignment is C18); print --with-totals prefixes (local to the printing function); --decimal / --diff cell formatting; other dates than the boundary set for the composition (the bucket rule itself is proven for all dates in C15)",
+        "outside": "the rendered table text (alignment is C18); --decimal / --diff cell formatting; other dates than the boundary set for the composition (the bucket rule itself is proven for all dates in C15)",
         "stubs": [MODELS["sort"], MODELS["tabulate"], MODELS["fmt"]],
         "assumptions": COMMON_ASSUME + ["reference periods of the 8 boundary dates (ISO week-year and week) are written down in the harness from the calendar"],
     },
     "C13": {
         "jobs": c13_jobs,
-        "bounds": {"quick": "shortcut filters this/last month, quarter, year and --today for every reference date 2019-2022 against records on the first/last day of the reference period and their neighbours; sort of 1-3 records with symbolic dates (2019-2021, any month, day 1-28) written with either date separator (mixed notations), asc and desc; date clauses (--date, --since, --since+--until) on 1-2 records with symbolic dates; tag clauses (#x, #y, #x=v at record and entry level) x 5 entry types x all entry kinds on 1 record x 2 entries and 2 records x 1 entry",
-                   "thorough": "sort up to 5 records; 3 records for date clauses; all clause kinds combined on one record; 3 entries"},
-        "outside": "--after/--before/--period, --yesterday/--tomorrow and the week shortcuts of FilterArgs.ApplyFilter (they pass C15's period code through unchanged; month/quarter/year shortcuts and --today are composed here for every reference date of the windows); sort of more than 12 records (pdqsort leaves its insertion-sort regime)",
+        "bounds": {"quick": "shortcut filters this/last week, month, quarter, year, --today/--yesterday/--tomorrow and --after/--before for every reference date 2019-2022 against records on the first/last day of the reference period and their neighbours; sort of 1-3 records with symbolic dates (2019-2021, any month, day 1-28) written with either date separator (mixed notations), asc and desc; date clauses (--date, --since, --since+--until) on 1-2 records with symbolic dates; tag clauses (#x, #y, #x=v at record and entry level) x 5 entry types x all entry kinds on 1 record x 2 entries and 2 records x 1 entry",
+                   "thorough": "sort up to 4 records; 3 records for date clauses; all clause kinds combined on one record; 3 entries"},
+        "outside": "--period with a literal pattern through ApplyFilter (pattern -> period is C15; period -> since/until is the date-clause path covered here); sort of more than 12 records (pdqsort leaves its insertion-sort regime)",
         "stubs": [MODELS["sort"], MODELS["regexp"]],
         "assumptions": COMMON_ASSUME + ["dates are raw field triples (Filter and Sort only compare year/month/day)"],
     },
@@ -543,7 +547,7 @@ CHECKS = {
     "C20": {
         "jobs": c20_jobs,
         "bounds": {"quick": "the emitted JSON TEXT (engine model of encoding/json driven by klog's struct declarations and tags, see stubs) of every generated document of 1-2 lines (valid and with injected rule violations; digits and summary bytes symbolic), compact and --pretty: parsed by a reference JSON reader written from RFC 8259 - well-formed, exactly one of records/errors non-null, every object has exactly the documented keys in order with the documented value kinds, per record date/summary/tags/should-total/entries in order with type, summary, tags, start/end notation and minute values, total = sum of entries, diff = total - should, range total = end - start; error objects equal to the terminal report (line, column, length, title, details); one record with a range (symbolic start hour x 4 ends x shifts), open range and signed duration with all digits symbolic",
-                   "thorough": "3-line documents; ranges with every hour 00-24 x minutes 00/01/59 on both ends x day shifts"},
+                   "thorough": "1-2 line documents in all 12 line-ending x indentation combinations; ranges with every hour 00-24 x minutes 00/01/59 on both ends x day shifts (3-line documents take > 45 min with the text model and are not registered)"},
         "outside": "bytes the generator does not put into summaries (its alphabet is ASCII; the string-escaping part of the model covers arbitrary bytes but is exercised with that alphabet only); filters and --sort in klog json (C13); documents longer than the bound",
         "stubs": [MODELS["json"], MODELS["regexp"], MODELS["fmt"], MODELS["sort"]],
         "assumptions": COMMON_ASSUME + ["the engine's model of encoding/json (struct tags incl. omitempty and `-`, embedded-struct field dominance, nil slices/pointers as null, string escaping with SetEscapeHTML, SetIndent layout, integers) is trusted; it is validated on every run by replaying all witnesses natively, where the real encoding/json produces the text that the same reference reader and assertions then examine"],
